@@ -35,9 +35,10 @@ def core_xml(props: dict) -> str:
         parts.append(f"<cp:keywords>{escape(p['keywords'])}</cp:keywords>")
     if p.get("description") is not None:
         parts.append(f"<dc:description>{escape(p['description'])}</dc:description>")
+    dates = p.get("_dates", "both")          # which of the two timestamps the core properties carry: both | created | modified | none
     parts.append("<cp:lastModifiedBy>vf</cp:lastModifiedBy><cp:revision>3</cp:revision>"
-                 '<dcterms:created xsi:type="dcterms:W3CDTF">2024-03-01T12:00:00Z</dcterms:created>'
-                 '<dcterms:modified xsi:type="dcterms:W3CDTF">2024-03-02T12:00:00Z</dcterms:modified>')
+                 + ('<dcterms:created xsi:type="dcterms:W3CDTF">2024-03-01T12:00:00Z</dcterms:created>' if dates in ("both", "created") else "")
+                 + ('<dcterms:modified xsi:type="dcterms:W3CDTF">2024-03-02T12:00:00Z</dcterms:modified>' if dates in ("both", "modified") else ""))
     return ('<?xml version="1.0" encoding="UTF-8" standalone="yes"?><cp:coreProperties '
             'xmlns:cp="http://schemas.openxmlformats.org/package/2006/metadata/core-properties" xmlns:dc="http://purl.org/dc/elements/1.1/" '
             'xmlns:dcterms="http://purl.org/dc/terms/" xmlns:dcmitype="http://purl.org/dc/dcmitype/" '
